@@ -70,7 +70,7 @@ func (rt *runtime) clone() *runtime {
 		c.object(rt.global.URIErrorPrototype),
 	}
 
-	out.eval = out.globalObject.property["eval"].value.(Value).value.(*object)
+	out.eval = c.object(rt.eval) // the built-in function, whatever the global binding holds now
 	if rt.thrower != nil {
 		out.thrower = c.object(rt.thrower)
 	}
